@@ -388,6 +388,10 @@ class DHEat:
             if (interactive is False) and ((now - start_timer) >= max_time) or (num_opened_connections >= max_connections):
                 break
 
+            # Connections that do not yield an SSH banner (i.e.: closed at once, or answered with "Exceeded MaxStartups") count towards the limit as well; otherwise the target would be re-dialed as fast as possible for the whole duration of the test.
+            if (num_attempted_connections >= max_connections) and (len(socket_dict) == 0):
+                break
+
             # out.d("interactive: %r; time.time() - start_timer: %f; max_time: %f; num_opened_connections: %u; max_connections: %u" % (interactive, time.time() - start_timer, max_time, num_opened_connections, max_connections), write_now=True)
 
             # Give the user some interactive feedback.
@@ -430,7 +434,7 @@ class DHEat:
                 del timedout_sockets[0]
 
             # Open new sockets until we've hit the number of concurrent sockets, or if we exceeded the number of maximum connections.
-            while (len(socket_dict) < concurrent_sockets) and (len(socket_dict) + num_opened_connections < max_connections):
+            while (len(socket_dict) < concurrent_sockets) and (len(socket_dict) + num_opened_connections < max_connections) and (num_attempted_connections < max_connections):
                 s = socket.socket(target_address_family, socket.SOCK_STREAM)
                 s.setblocking(False)
 
